@@ -179,7 +179,7 @@ def check(ctx):
         "implementation run with linprog recorded and replayed into model/Tactics.v (terms compared at 1e-9, tactic numbers "
         "exactly); C04 decided exactly on each result with certificates checked by base/Farkas.v. non-trivial = at least one "
         "tactic fired (tactic number > 0) or an error; distinct by canonical input+configuration")
-    proved = ctx.prove("props/C04.v", ["proofs/TacticsFacts.v", "proofs/TermGenCore.v", "proofs/TermGenArith.v", "proofs/TermGenRemove.v", "proofs/TermGenSubst.v", "proofs/TermGenIsolate.v", "proofs/TermListGenElim.v", "proofs/TermListGenKaykobad.v", "proofs/TermListGenTactic4.v", "proofs/TermListGenTactic32.v", "proofs/TermListGenFacts.v"])
+    proved = ctx.prove("props/C04.v", ["proofs/TacticsFacts.v", "proofs/TermGenCore.v", "proofs/TermGenArith.v", "proofs/TermGenRemove.v", "proofs/TermGenSubst.v", "proofs/TermGenIsolate.v", "proofs/TermListGenElim.v", "proofs/TermListGenKaykobad.v", "proofs/TermListGenTactic4.v", "proofs/TermListGenTactic32.v", "proofs/TermListGenFacts.v", "proofs/TlpGenContext.v", "proofs/TlpGenReduction.v", "proofs/TlpGenFacts.v"])
     ctx.build(["model/Corr.vo", "base/Farkas.vo"])
     rng = random.Random(ctx.seed + 4)
     n = (400 if ctx.quick else 30000) * (1 if proved else 3)
